@@ -38,13 +38,14 @@ def c04(cx):
     rules_struct.r_restore(cx, cx.facts("dev-none-stable"))
 
 
-@prop("C06", 'LEA rules over every emission of every lex_token path: R-CHANNEL (channel/type sets satisfy the '
-             'channel policy; ExpectSymbol pairs checked at their constructors), R-NONEMPTY (only the designated '
-             'recovery/virtual types can be zero-width), R-SPELL (symbol tokens consume exactly one admissible '
-             'spelling), R-DELIM-SHAPE (comments carry opener and closer), R-MARK-WS (hidden WS emitted at a mark '
-             'covers only whitespace), R-ORPHAN (every consumed character belongs to a token of its step, so none '
-             'silently joins the previous token), R-ADVANCE-EVIDENCE. Decides these per-type shape clauses, not '
-             "the keyword tables' content.")
+@prop("C06", 'LEA rules over every emission of every lex_token path (debug and release configuration): R-CHANNEL '
+             '(channel/type sets satisfy the channel policy; ExpectSymbol pairs checked at their constructors), '
+             'R-NONEMPTY (only the designated recovery/virtual types can be zero-width - judged both by what was '
+             "consumed since the token start and by the next token's start), R-SPELL (symbol tokens consume "
+             'exactly one admissible spelling), R-DELIM-SHAPE (comments carry opener and closer), R-MARK-WS '
+             '(hidden WS emitted at a mark covers only whitespace), R-ORPHAN (every consumed character belongs to '
+             'a token of its step), R-ADVANCE-EVIDENCE. Decides these per-type shape clauses, not the keyword '
+             "tables' content.")
 def c06(cx):
     lea_glue.apply(cx, ["R-CHANNEL", "R-ADVANCE-EVIDENCE", "R-MARK-WS", "R-DELIM-SHAPE", "R-NONEMPTY", "R-SPELL", "R-ORPHAN"])
 
@@ -61,9 +62,11 @@ def c09(cx):
 
 @prop("C07", 'LEA rules R-SECTION (the first literal section of a token is anchored at the token start or right '
              'after its opening quote on every call path; a section end computed as `current offset - k` directly '
-             "follows the consumption of the closing quote) and R-PRECONSUME (a dispatcher's pre-consumed first "
-             'character is not one the scanner would treat as an escape / section boundary); structural R-HEX-SINK '
-             'and R-RESTORE. Decides where sections begin and end, not the unquoted content.')
+             "follows the consumption of the closing quote), R-PRECONSUME (a dispatcher's pre-consumed first "
+             'character is not one the scanner would treat as an escape / section boundary) and R-PAYLOAD-ESCAPE '
+             '(literal-buffer positions as ordered labels: a token emitted after a literal-section cut does not '
+             'take the no-payload branch); structural R-HEX-SINK and R-RESTORE. Decides where sections begin and '
+             'end and that unquoting is reported, not the unquoted content.')
 def c07(cx):
     lea_glue.apply(cx, ["R-SECTION", "R-PRECONSUME", "R-PAYLOAD-ESCAPE"])
     fx = cx.facts("dev-none-stable")
@@ -90,19 +93,22 @@ def c13(cx):
     lea_glue.apply(cx, ["R-NESTING-FLUSH", "R-DEPTH-GUARD", "R-PRECONSUME"])
 
 
-@prop("C14", 'LEA rules R-EXPECT-TABLE (for every keyword handled by dispatch_macro_call_or_stat the pre-loaded '
-             "mode sequence satisfies the delimiter clauses of the property: '(' first, ',' after the first "
-             "%scan/%substr argument, '=' after the %let name, '/' after the %copy name, ';' last) and R-ERR-PAIR "
-             "(each 'missing expected' error sits at the recovery token's offset, incl. finalize_lexing at end of "
-             'input).')
+@prop("C14", 'LEA rules R-EXPECT-TABLE (for every keyword handled by dispatch_macro_call_or_stat, and for the '
+             "iterative %do, the pre-loaded mode sequence satisfies the delimiter clauses of the property: '(' "
+             "first, ',' after the first %scan/%substr argument, '=' after the %let / %do name, '/' after the "
+             "%copy name, ';' last), R-ERR-PAIR (each 'missing expected' error sits at the recovery token's "
+             'offset, incl. finalize_lexing), R-FINALIZE-ONCE (every pending mode is closed exactly once at end of '
+             'input) and R-EXPECT-SURVIVES (no rollback truncation discards a pending expectation mode).')
 def c14(cx):
     lea_glue.apply(cx, ["R-EXPECT-TABLE", "R-ERR-PAIR", "R-EXPECT-SURVIVES", "R-FINALIZE-ONCE"])
 
 
 @prop("C03", 'structural rules R-CURSOR-COUNT (every chars.next() of Cursor::advance/advance_by is matched by +1 '
-             'on char_offset, in the debug and the release configuration; nobody else writes the field) and '
-             'R-UNITS (a byte/code-point dimension analysis: ByteOffset::new, CharOffset::new, str slicing bounds, '
-             'comparisons, and plain-integer parameters / fields whose name declares the unit never mix the two).')
+             'on char_offset, in the debug and the release configuration; nobody else writes the field), R-UNITS '
+             '(a byte/code-point dimension analysis: ByteOffset::new, CharOffset::new, str slicing bounds, '
+             'comparisons, and plain-integer parameters / fields whose name declares the unit never mix the two), '
+             'R-BOM-USERS (only Lexer::new looks at the byte-order mark) and LEA R-BOM-ORDER on the paths of '
+             'Lexer::new (the first char offset counts exactly the skipped mark).')
 def c03(cx):
     rules_struct.r_cursor_count(cx, ["dev-none-stable", "rel-none-stable"])
     rules_struct.r_units(cx, ["dev-none-stable", "dev-msep-stable"])
@@ -172,10 +178,11 @@ def c11(cx):
 
 
 @prop("C15", 'R-STATE-INVENTORY (no state outside the lexer object), R-NO-ABSOLUTE (no control flow on history '
-             "lengths), R-LOOKBEHIND + R-DATALINES-START (statement-start look-behind treats 'no previous token' "
-             "like ';' and ignores hidden tokens), R-CKPT (no checkpoint survives a closed boundary), "
-             'R-FRAME-BALANCE. Decides that no channel other than the declared configuration carries information '
-             'across a closed boundary; not equality of results for all (A, B).')
+             'lengths or absolute offsets), R-LOOKBEHIND + R-DATALINES-START (statement-start look-behind treats '
+             "'no previous token' like ';' and ignores hidden tokens), R-CKPT (no checkpoint survives a closed "
+             'boundary), R-FRAME-BALANCE and R-PENDING (pending-statement frames and the open-code flag are back '
+             'to their initial value after a closed statement). Decides that no channel other than the declared '
+             'configuration carries information across a closed boundary; not equality of results for all (A, B).')
 def c15(cx):
     rules_cfg.r_state_inventory(cx)
     rules_cfg.r_no_absolute(cx)
@@ -184,12 +191,13 @@ def c15(cx):
 
 
 @prop("C18", 'R-CFGDIFF-MACROSEP: structural diff of the feature-off and feature-on HIR: feature-only code may '
-             'only read and emit/insert MacroSep; R-MACROSEP-GUARD: every MacroSep emission is guarded by '
-             "needs_macro_sep and goes to DEFAULT without payload, and the predicate's full truth table "
+             "only read and emit/insert MacroSep; R-MACROSEP-GUARD: the predicate's full truth table "
              "(constant-folded for all 289 x 288 arguments) is false after start/';'/label/%then/%else and true "
-             'only before macro statement keywords or labels; R-INSERT-PROVENANCE for the inserted token; '
-             "R-LOOKBEHIND (rows None and ';' identical); R-COMUTATE (derived buffer state is maintained by every "
-             'mutator, incl. the feature-only insert_token).')
+             'only before macro statement keywords or labels; R-MACROSEP-EMIT (LEA on the macro_sep '
+             'configuration): a MacroSep is produced only on paths where the predicate returned true, asked about '
+             'the DEFAULT look-behind token, on DEFAULT without payload; R-INSERT-PROVENANCE; R-LOOKBEHIND (rows '
+             "None and ';' identical); R-COMUTATE (derived buffer state is maintained by every mutator, incl. the "
+             'feature-only insert_token).')
 def c18(cx):
     rules_cfg.r_cfgdiff_macrosep(cx)
     rules_cfg.r_lookbehind(cx)
@@ -210,10 +218,11 @@ def c19(cx):
     lea_glue.apply(cx, ["R-PANIC"])
 
 
-@prop("C20", "R-WIRE (rmp_serde::to_vec tuple order, Serialize field order of the linked crate's ResolvedTokenInfo / "
-             "ErrorInfo vs the array_like msgspec Structs, Payload untagged), R-ENUMS (Python IntEnums equal the "
-             "linked crate's discriminants; build.rs regenerates the committed modules byte-identically), R-PY-SOURCE "
-             "(the lexed text is the caller's string, extracted losslessly). Decides the schema half only.")
+@prop("C20", "R-WIRE (rmp_serde::to_vec tuple order, Serialize field order of the linked crate's ResolvedTokenInfo "
+             '/ ErrorInfo vs the array_like msgspec Structs, Payload untagged), R-ENUMS (Python IntEnums equal the '
+             "linked crate's discriminants; build.rs regenerates the committed modules byte-identically), "
+             "R-PY-SOURCE (the lexed text is the caller's string: extracted losslessly on the Rust side, passed "
+             'through unchanged by the Python wrapper). Decides the schema half only.')
 def c20(cx):
     rules_py.run(cx)
 
